@@ -69,6 +69,9 @@ type Contract struct {
 	NoSafety   bool
 	SafetyProps []string
 	Params     []string // optional explicit parameter names (externals)
+	Behavior   string   // name of the behaviour (case) this contract describes; "" for a plain contract
+	Target     string   // function key (Key is Target#Behavior for behaviours)
+	FvTargets  []string // dynamic calls are restricted (and checked) to callees whose key contains one of these
 	File       string
 	Line       int
 }
@@ -91,6 +94,7 @@ type GhostVar struct {
 
 type Spec struct {
 	Contracts map[string]*Contract
+	Behaviors map[string][]*Contract // function key -> its behaviours
 	SpecFuncs map[string]*SpecFunc
 	GhostVars map[string]*GhostVar
 	Axioms    []*Clause
@@ -103,7 +107,7 @@ type Spec struct {
 
 func NewSpec() *Spec {
 	return &Spec{
-		Contracts: map[string]*Contract{}, SpecFuncs: map[string]*SpecFunc{}, GhostVars: map[string]*GhostVar{},
+		Contracts: map[string]*Contract{}, Behaviors: map[string][]*Contract{}, SpecFuncs: map[string]*SpecFunc{}, GhostVars: map[string]*GhostVar{},
 		AxiomPkg: map[*Clause]string{}, LemmaPkg: map[*Clause]string{}, Imports: map[string]map[string]string{},
 	}
 }
@@ -111,7 +115,7 @@ func NewSpec() *Spec {
 var labelRe = regexp.MustCompile(`^\[([^\]]*)\]\s*`)
 var clauseKeywords = map[string]bool{"func": true, "spec": true, "ghost": true, "axiom": true, "import": true, "requires": true,
 	"ensures": true, "loop": true, "assert@call": true, "prologue": true, "epilogue": true, "modifies": true, "pure": true,
-	"assumed": true, "trusted": true, "maypanic": true, "lemma": true, "nosafety": true, "params": true, "safety": true}
+	"assumed": true, "trusted": true, "maypanic": true, "lemma": true, "nosafety": true, "params": true, "safety": true, "fvtargets": true}
 
 func splitLabels(rest string) ([]string, string) {
 	if m := labelRe.FindStringSubmatch(rest); m != nil {
@@ -226,11 +230,23 @@ func (s *Spec) ParseSpecFile(path, pkgPath string) error {
 			}
 			s.Imports[pkgPath][parts[0]] = strings.Trim(parts[1], "\"")
 		case "func":
-			key := qualifyTarget(rest, pkgPath)
+			behavior := ""
+			if i := strings.Index(rest, " behavior "); i >= 0 {
+				behavior = strings.TrimSpace(rest[i+len(" behavior "):])
+				rest = strings.TrimSpace(rest[:i])
+			}
+			target := qualifyTarget(rest, pkgPath)
+			key := target
+			if behavior != "" {
+				key = target + "#" + behavior
+			}
 			if _, dup := s.Contracts[key]; dup {
 				return fail("duplicate contract for %s", key)
 			}
-			cur = &Contract{Key: key, PkgPath: pkgPath, LoopInv: map[int][]*Clause{}, File: path, Line: rl.line}
+			cur = &Contract{Key: key, Target: target, Behavior: behavior, PkgPath: pkgPath, LoopInv: map[int][]*Clause{}, File: path, Line: rl.line}
+			if behavior != "" {
+				s.Behaviors[target] = append(s.Behaviors[target], cur)
+			}
 			s.Contracts[key] = cur
 		case "ghost", "spec":
 			// ghost var $n T [= e] | ghost func name(a T) R | spec func name(a T) R = e
@@ -411,6 +427,8 @@ func (s *Spec) ParseSpecFile(path, pkgPath string) error {
 				}
 			case "params":
 				cur.Params = strings.Fields(strings.ReplaceAll(rest, ",", " "))
+			case "fvtargets":
+				cur.FvTargets = strings.Fields(strings.ReplaceAll(rest, ",", " "))
 			default:
 				return fail("unknown clause %q", kw)
 			}
